@@ -811,6 +811,28 @@ extern "C" int __wrap_mprotect(void *addr, size_t len, int prot) {
 	return 0;
 }
 
+// ------------------------------------------------------------------ synchronisation the library may use
+// The library has no lock today. If a change adds one (a mutex around a memo, std::call_once, a function-local static
+// with a non-trivial initialiser), the simulated threads must not be parked inside the region (see rt.hpp). These
+// wrappers only keep the per-thread depth; the real primitive does the work (in the tsan variant that is TSan's
+// interceptor, so the happens-before edges the primitive creates are seen).
+#include <pthread.h>
+extern "C" int __cxa_guard_acquire(void *);
+extern "C" void __cxa_guard_release(void *);
+extern "C" void __cxa_guard_abort(void *);
+extern "C" int __wrap_pthread_mutex_lock(pthread_mutex_t *m) { int r = pthread_mutex_lock(m); if (r == 0) rt::sched_lock_enter(); return r; }
+extern "C" int __wrap_pthread_mutex_trylock(pthread_mutex_t *m) { int r = pthread_mutex_trylock(m); if (r == 0) rt::sched_lock_enter(); return r; }
+extern "C" int __wrap_pthread_mutex_unlock(pthread_mutex_t *m) { rt::sched_lock_exit(); return pthread_mutex_unlock(m); }
+extern "C" int __wrap_pthread_rwlock_rdlock(pthread_rwlock_t *m) { int r = pthread_rwlock_rdlock(m); if (r == 0) rt::sched_lock_enter(); return r; }
+extern "C" int __wrap_pthread_rwlock_wrlock(pthread_rwlock_t *m) { int r = pthread_rwlock_wrlock(m); if (r == 0) rt::sched_lock_enter(); return r; }
+extern "C" int __wrap_pthread_rwlock_unlock(pthread_rwlock_t *m) { rt::sched_lock_exit(); return pthread_rwlock_unlock(m); }
+extern "C" int __wrap_pthread_spin_lock(pthread_spinlock_t *m) { int r = pthread_spin_lock(m); if (r == 0) rt::sched_lock_enter(); return r; }
+extern "C" int __wrap_pthread_spin_unlock(pthread_spinlock_t *m) { rt::sched_lock_exit(); return pthread_spin_unlock(m); }
+extern "C" int __wrap_pthread_once(pthread_once_t *o, void (*fn)(void)) { rt::sched_lock_enter(); int r = pthread_once(o, fn); rt::sched_lock_exit(); return r; }
+extern "C" int __wrap___cxa_guard_acquire(void *g) { int r = __cxa_guard_acquire(g); if (r) rt::sched_lock_enter(); return r; }
+extern "C" void __wrap___cxa_guard_release(void *g) { rt::sched_lock_exit(); __cxa_guard_release(g); }
+extern "C" void __wrap___cxa_guard_abort(void *g) { rt::sched_lock_exit(); __cxa_guard_abort(g); }
+
 // H1 hook target
 extern "C" void randomx_verif_yield(int site) {
 	if (!t_ctx || t_ctx->model_mode || t_in_seam) return;
